@@ -94,6 +94,15 @@ def gen_ops(rng, writes, m, tier):
                 ops.append(("branch_valid", other[1], root, k, rng.choice([real, m.get(other[0]), wrong])))
                 meta.append(("valid_claim", k, ops[-1][4]))
             other = (k, br)
+            # the same functions on a PARTIAL database first (just this branch's nodes: the root is there, most descendants are
+            # not): whatever they return or raise there, the later calls on the complete database must not be affected by it
+            partial = {keccak(n): n for n in br}
+            for f in (lambda: list(BR.get_trie_nodes(partial, root)), lambda: list(BR.get_witness_for_key_prefix(partial, root, k[:1])),
+                      lambda: BR.check_if_branch_exist(partial, root, k[:1]), lambda: list(BR.get_branch(partial, root, k + b"\x00"))):
+                try:
+                    f()
+                except Exception:
+                    pass
         ops.append(("witness", k))
         meta.append(("witness", k))
     ops.append(("trie_nodes",))
